@@ -12,6 +12,8 @@ git -C /repo worktree add -q --detach $W HEAD || exit 2
 cleanup() { cd /; git -C /repo worktree remove --force $W 2>/dev/null; rm -rf $W; }
 trap cleanup EXIT
 cd $W
+# make the cgo-bound packages (internal, internal/hwmon, cmd) buildable for demonstrations that live there
+go mod edit -replace github.com/md14454/gosensors=/tmp/mut/gosensors-stub
 DIR=$(head -1 $DEMO | sed -n 's,^// place in: *,,p' | tr -d ' \r')
 [ -z "$DIR" ] && DIR=internal/controller
 DEMOFILE=$DIR/zz_seeded_demo_test.go
@@ -25,6 +27,9 @@ go build ./internal/controller/ ./internal/fans/ ./internal/curves/ ./internal/s
 env $DEMOENV go test -vet=off -count=1 -run "^($TESTS)\$" ./$DIR/ > /tmp/evalmut.$$.mut 2>&1; MUT=$?
 rm -f $DEMOFILE
 go test -vet=off -count=1 ./internal/... 2>&1 | grep -v "^ok\|no test files\|build failed\|gosensors\|sensors.h\|^ *[0-9]* |\|compilation terminated\|#include" > /tmp/evalmut.$$.suite; SUITE=$(grep -c "^--- FAIL\|^FAIL.*[0-9]s$\|^panic" /tmp/evalmut.$$.suite)
+if [ $SUITE -ne 0 ]; then   # the repository's own timing-sensitive tests (internal/curves) flake under load: one retry
+  go test -vet=off -count=1 ./internal/... 2>&1 | grep -v "^ok\|no test files\|build failed\|gosensors\|sensors.h\|^ *[0-9]* |\|compilation terminated\|#include" > /tmp/evalmut.$$.suite; SUITE=$(grep -c "^--- FAIL\|^FAIL.*[0-9]s$\|^panic" /tmp/evalmut.$$.suite)
+fi
 echo "demo on unchanged tree: exit $BASE (want 0); demo with change: exit $MUT (want !=0); existing suite failures with change: $SUITE (want 0)"
 [ $SUITE -ne 0 ] && cat /tmp/evalmut.$$.suite | head
 CONFIRMED=no; [ $BASE -eq 0 ] && [ $MUT -ne 0 ] && [ $SUITE -eq 0 ] && CONFIRMED=yes
